@@ -84,7 +84,8 @@ def init_embedding_model(embedding_model: str, embedding_engine: str) -> Embeddi
         ValueError: If the embedding engine is invalid.
     """
 
-    model_key = f"{embedding_engine}-{embedding_model}"
+    # A tuple: joining the two names with a separator lets ("a-b", "c") and ("a", "b-c") share one entry
+    model_key = (embedding_engine, embedding_model)
 
     if model_key not in _embedding_model_cache:
         model = EmbeddingProviderRegistry().get(embedding_engine)(embedding_model)
